@@ -33,10 +33,12 @@ var Properties = map[string][]string{
 	"C05": {"C02.a", "C05.b", "C05.c", "C01.d"},
 	"C07": {"C07"},
 	"C06": {"C06.a", "C05.c", "C06.c", "C06.e"},
-	"C08": {"C08.a", "C08.b"},
-	"C11": {"C11.c", "C01.d"},
-	"C12": {"C12.b"},
+	"C08": {"C08.a", "C08.b", "C08.c"},
+	"C11": {"C11.c", "C11.g", "C01.d"},
+	"C12": {"C12.b", "C16.d"},
 	"C13": {"C13.a", "C13.c"},
+	"C17": {"C17.a", "C17.b", "C17.c", "C06.e", "C17.e", "C11.c"},
+	"C16": {"C16.a", "C16.b", "C16.c", "C16.d"},
 	"C15": {"C15.b", "C15.d", "C12.b"},
 	"C14": {"C14.abc", "C14.d", "C14.e"},
 }
